@@ -34,7 +34,7 @@ REQUIRED_CLAUSES = [
     'outcome-equals-model', 'illegal-call-raises-RuntimeError', 'illegal-call-leaves-watch-unchanged',
     'elapsed-nonnegative', 'elapsed-nonnegative-backwards-clock', 'elapsed-le-maximum',
     'elapsed-is-distance-from-last-restart-while-running', 'elapsed-is-distance-to-stop-instant-while-stopped',
-    'two-watches-interleaved', 'decimal-readings-consistency', 'leftover-is-max0-duration-minus-elapsed', 'leftover-nonnegative-backwards-clock',
+    'clock-replaced-after-construction', 'watch-copied-mid-history', 'two-watches-interleaved', 'decimal-readings-consistency', 'leftover-is-max0-duration-minus-elapsed', 'leftover-nonnegative-backwards-clock',
     'leftover-without-duration', 'expired-iff-elapsed-exceeds-duration', 'expired-false-without-duration',
     'observable-state-equals-model', 'splits-nondecreasing-lengths-are-differences',
     'splits-cleared-by-restart', 'illegal-call-raises-RuntimeError-backwards-clock',
@@ -91,6 +91,14 @@ class Kit:
         self.depth = 0
         self.exit_args = (None, None, None)
         self.kw = True
+
+    def swap_clock(self):
+        """Replace the module-level clock by a NEW function object reading a new cell; the function that was installed
+        until now keeps answering, but with a reading far in the past (a watch must look the clock up when it needs it)."""
+        old, new = self.cell, [self.cell[0]]
+        self.cell = new
+        self.tu.now = lambda: new[0]
+        old[0] = -1.0e9
 
     def configure(self, duration, times, maximum, mono):
         self.duration, self.T, self.maximum, self.mono = duration, times, maximum, mono
@@ -384,6 +392,9 @@ def _evaluate(K, case):
     except BaseException as e:  # noqa
         ctx.fail('constructor-raised', case, {'exc': e})
         return
+    if case.get('swap_clock'):
+        K.swap_clock()
+        K.bump('clock-replaced-after-construction')
     m = WatchModel(duration)
     if len(seq) > len(K.path):
         K.path = [0] * len(seq)
@@ -397,6 +408,13 @@ def _evaluate(K, case):
         seq2 = [OPS.index(name) for name in second['sequence']]
         K.bump('two-watches-interleaved')
     for i, op in enumerate(seq):
+        if case.get('copy_at') == i:
+            # the watch travels (pickle round trip / deepcopy) in the middle of its history and the copy is used from
+            # here on: same state, same answers
+            import copy
+            import pickle
+            w = pickle.loads(pickle.dumps(w)) if case.get('copy_how') == 'pickle' else copy.deepcopy(w)
+            K.bump('watch-copied-mid-history')
         path[i] = op
         K.depth = i + 1
         call_and_check(K, w, m, op, times[i + 1])
@@ -406,7 +424,8 @@ def _evaluate(K, case):
             call_and_check(K, w2, m2, seq2[i], times[i + 1])
             path[i] = op
     ctx.case((tuple(seq), duration, tuple(steps), times[0], K.maximum, K.exit_args[0] is not None, K.kw,
-              repr(second) if second else None), nontrivial=left_new)
+              repr(second) if second else None, bool(case.get('swap_clock')), case.get('copy_at'), case.get('copy_how')),
+             nontrivial=left_new)
     K.exit_args = (None, None, None)
     K.kw = True
 
@@ -700,6 +719,11 @@ def run(ctx):
                 # one stream per sequence: a worker generates only its own sequences
                 crng = ctx.rng('random-sequence-%d' % i)
                 case = random_case(crng, backwards=i >= n_mono)
+                if i % 3 == 1:
+                    case['swap_clock'] = True
+                if i % 5 == 2 and len(case['steps']) >= 2:
+                    case['copy_at'] = crng.randrange(1, len(case['steps']))
+                    case['copy_how'] = crng.choice(['pickle', 'deepcopy'])
                 if i % 4 == 0 and i < n_mono and len(case['steps']) <= 60:
                     other = random_case(crng, backwards=False)
                     case['second'] = {'duration': other['duration'],
